@@ -33,6 +33,9 @@ struct Ghost {
   bool in_pure_getid[kMaxT] = {};     // inside a direct IDManager::GetThreadID call (nothing but the claim runs)
   uint64_t getid_steps[kMaxT] = {};   // steps spent inside the first GetThreadID since the ghost ID table last changed
   uint64_t table_version = 0;
+  int in_forward = -1;            // thread inside ForwardGlobalEpoch (-1 none)
+  uint64_t fwd_steps = 0;
+  bool fwd_blocked_reported = false;
   uint64_t seen_version[kMaxT] = {};
   bool starve_reported = false;
   int last_owner[64];
@@ -446,7 +449,10 @@ struct Worker {
           const uint64_t ev0 = g.pin_events;
           const long frees0 = vsched::heap_stats().frees;
           vsched::heap_lib_scope(true);
+          g.in_forward = me;
+          g.fwd_steps = 0;
           mgr->ForwardGlobalEpoch();
+          g.in_forward = -1;
           vsched::heap_lib_scope(false);
           if (vsched::heap_stats().frees > frees0) {
             for (int t = 0; t < kMaxT; t++) {
@@ -484,6 +490,11 @@ step_cb(int t)
 {
   if (X == nullptr || X->phase != 1 || t < 0 || t >= kMaxT) return;
   auto &g = X->g;
+  // C16: a forward never waits for other threads; it needs one pass over the thread slots
+  if (g.in_forward == t && ++g.fwd_steps > 8 * kCap + 64 && !g.fwd_blocked_reported) {
+    g.fwd_blocked_reported = true;
+    report("FWD-BLOCKED", "ForwardGlobalEpoch has executed " + s(static_cast<size_t>(g.fwd_steps)) + " atomic steps without returning (capacity " + s(kCap) + "): it is waiting for something");
+  }
   if (!g.in_pure_getid[t]) return;
   if (g.seen_version[t] != g.table_version) {
     g.seen_version[t] = g.table_version;
